@@ -38,6 +38,24 @@ def to_py_index(items, bare=False, npint=False):
     return t
 
 
+def freeze(x):
+    """A comparable snapshot of an argument handed to the library (nested lists / tuples / dicts / arrays / Quantities /
+    headers / strings / numbers): `freeze(arg)` before a call and after it must be equal - a call, successful or
+    refused, does not edit what the caller passed in."""
+    import astropy.units as u
+    if isinstance(x, u.Quantity):
+        return ("Q", type(x).__name__, np.asarray(x.value).shape, np.asarray(x.value, dtype=float).tobytes(), str(x.unit))
+    if isinstance(x, np.ndarray):
+        return ("A", x.shape, str(x.dtype), x.tobytes() if x.dtype != object else repr(x.tolist()))
+    if isinstance(x, dict) or hasattr(x, "cards"):
+        return ("D", type(x).__name__, tuple((str(k), freeze(v)) for k, v in dict(x).items()))
+    if isinstance(x, (list, tuple)):
+        return ("L", type(x).__name__, tuple(freeze(v) for v in x))
+    if isinstance(x, (str, int, float, bool, type(None), np.generic)):
+        return ("S", type(x).__name__, repr(x))
+    return ("O", type(x).__name__, id(x))
+
+
 def sl(a=None, b=None, c=None):
     return {"s": [a, b, c]}
 
